@@ -16,7 +16,11 @@ import sys
 import time
 
 ROOT = os.path.dirname(os.path.dirname(os.path.abspath(__file__)))
-SCRATCH = "/tmp/wt_confirm"
+SCRATCH = os.environ.get("SEED_SCRATCH", "/tmp/wt_confirm")
+# where the patch is applied for the checks: /repo itself, or (VERIF_REPO set) a scratch worktree
+# of it that an isolated copy of /verif is pointed at, so that seeds can be evaluated while
+# /verif and /repo are being worked on
+TARGET = os.environ.get("VERIF_REPO", "/repo")
 
 
 def sh(cmd, cwd=None, timeout=3600, env=None):
@@ -89,9 +93,9 @@ def main():
     # ---- 2. the checks against the patched /repo
     verdicts = {}
     if result["confirmed"]:
-        rc, out = sh(["git", "-C", "/repo", "status", "--porcelain"])
-        assert out.strip() == "", "/repo is not clean: " + out
-        rc, out = sh(["git", "-C", "/repo", "apply", patch])
+        rc, out = sh(["git", "-C", TARGET, "status", "--porcelain"])
+        assert out.strip() == "", TARGET + " is not clean: " + out
+        rc, out = sh(["git", "-C", TARGET, "apply", patch])
         assert rc == 0, out
         try:
             for c in checks:
@@ -106,11 +110,12 @@ def main():
                                "wall_s": round(time.time() - t0, 1)}
                 print(sid, c, "exit", rc, (first[0][:160] if first else ""), flush=True)
         finally:
-            sh(["git", "-C", "/repo", "checkout", "--", "."])
-            rc, out = sh(["git", "-C", "/repo", "status", "--porcelain"])
-            assert out.strip() == "", "/repo not restored: " + out
-        result["ran"].append("git -C /repo apply patch.diff; python3 tools/check.py <id> --tier quick for %s; "
-                             "git -C /repo checkout -- ." % ",".join(checks))
+            sh(["git", "-C", TARGET, "checkout", "--", "."])
+            rc, out = sh(["git", "-C", TARGET, "status", "--porcelain"])
+            assert out.strip() == "", TARGET + " not restored: " + out
+        result["ran"].append("git -C %s apply patch.diff; python3 tools/check.py <id> --tier quick for %s; "
+                             "git -C %s checkout -- .%s" % (TARGET, ",".join(checks), TARGET,
+                             "" if TARGET == "/repo" else " (scratch worktree of /repo at HEAD, checks run from a copy of /verif with VERIF_REPO pointing at it)"))
     result["checks"] = verdicts
     result["detected_by"] = sorted(c for c, v in verdicts.items() if v["exit"] == 1)
     result["tool_errors"] = sorted(c for c, v in verdicts.items() if v["exit"] not in (0, 1))
